@@ -111,14 +111,16 @@ def output_after_cut_case(ctx, rng, nt_fn):
     with Out unbound, bound to the result, bound to something else, partially bound: the unification after the cut
     is a TEST that may fail after the commit (then the whole call fails - later clauses are not tried)"""
     K, R, S = V('K'), V('R'), V('S')
-    structs = [C('round', K), L([K]), C('pair', K, A('m0')), A('plain'), C('round', A('m0')), L([A('m0'), K])]
+    structs = [C('round', K), L([K]), C('pair', K, A('m0')), A('plain'), C('round', A('m0')), L([A('m0'), K]), A('plain'), C('round', A('m1')), A('yes')]
     clauses = list(gen.leaf_facts())
     ncl = rng.choice([2, 2, 3])
     for i in range(ncl):
         last = i == ncl - 1
-        hk = rng.choice([K, K, A('m0'), A('m1'), C('s', K)])
+        # (the key as a plain variable, a constant, or inside a structure / a list - where it is not a 'head variable'
+        # for analyses that only look at direct arguments)
+        hk = rng.choice([K, K, A('m0'), A('m1'), C('s', K), C('s', K), L([K]), C('item', K, K)])
         goals = []
-        if rng.random() < 0.35:
+        if rng.random() < 0.6:
             goals.append(('call', C(rng.choice(['ev', 'od', 'm']), K if hk[0] != 'a' else A('m0'))))
         if not last or rng.random() < 0.3:
             goals.append(('cut',))
@@ -129,7 +131,7 @@ def output_after_cut_case(ctx, rng, nt_fn):
         head = C('t', hk, R, S)
         clauses.append((head, gen.conj(goals)))
     pre = []
-    kq = rng.choice([A('m0'), A('m1'), V('Q1'), C('s', A('m0'))])
+    kq = rng.choice([A('m0'), A('m1'), V('Q1'), V('Q1'), C('s', A('m0')), C('s', V('Q4')), L([V('Q5')]), C('item', V('Q4'), V('Q5'))])
     rq = rng.choice([V('Q2'), V('Q2'), C('round', A('m0')), C('round', A('m1')), C('angular', A('m0')), L([V('Q4')]), A('plain'),
                      C('pair', V('Q4'), V('Q5')), C('round', V('Q4'))])
     clauses.append((C('top', V('W'), V('Q1'), V('Q2'), V('Q3'), V('Q4'), V('Q5')),
